@@ -159,7 +159,7 @@ theorem refs_nonneg (w : World) (x : Nat) : 0 ≤ refs w x := by
   unfold refs; omega
 
 theorem kindOk_init : KindOk ({} : World) := by
-  intro op k hm; cases hm
+  intro op k c hm; cases hm
 
 theorem acct_init' : AcctInv ({} : World) := by
   refine ⟨by simp [ids], ?_⟩
